@@ -35,6 +35,9 @@
 //	    zeros tie under cmp.Compare and are told apart by the sign bit);  L  y []byte, z []bool,
 //	    u []float32 (== : NaN equals nothing, the zeros equal each other), a [] of a 40-byte
 //	    comparable struct, r []*int (== is identity).  Codes as in the other typed modes.
+//	modes K and Q (L, I, N): the ...Func forms on elements that are not ints -- K a 40-byte struct
+//	    (key and payload in two of its fields), Q pointers to such structs -- with eq / cmp on the
+//	    key alone: on the trace's ints exactly mode k.
 package main
 
 import (
@@ -388,6 +391,124 @@ func lcsTypedCodes(mode string) int {
 		return len(extWide)
 	}
 	return len(extPtr)
+}
+
+
+// unInts5: tr.UnInts with two abbreviations for long inputs: "v*n" (n times v) and "a~b" (a, a+1, .. b).
+func unInts5(s string) []int {
+	if !strings.ContainsAny(s, "*~") {
+		return tr.UnInts(s)
+	}
+	var out []int
+	for _, p := range strings.Split(s, ",") {
+		if v, n, ok := strings.Cut(p, "*"); ok {
+			x, e1 := strconv.Atoi(v)
+			k, e2 := strconv.Atoi(n)
+			if e1 != nil || e2 != nil || k < 0 || k > 1<<17 {
+				panic("bad int " + p)
+			}
+			for ; k > 0; k-- {
+				out = append(out, x)
+			}
+		} else if a, b, ok := strings.Cut(p, "~"); ok {
+			x, e1 := strconv.Atoi(a)
+			y, e2 := strconv.Atoi(b)
+			if e1 != nil || e2 != nil || y-x > 1<<17 {
+				panic("bad int " + p)
+			}
+			for ; x <= y; x++ {
+				out = append(out, x)
+			}
+		} else {
+			out = append(out, tr.UnInts(p)...)
+		}
+	}
+	return out
+}
+
+// ---------------------------------------------------------------- the ...Func forms on structs and pointers
+
+func wideOf(e int) wide {
+	return wide{A: int64(key(e)), B: 0x0102030405060708, C: -1, D: int64(e % 100), E: [8]byte{9, 9, 9, 9, 9, 9, 9, byte(e)}}
+}
+func (w wide) code() int {
+	e := int(w.A)*100 + int(w.D)
+	if w != wideOf(e) {
+		return -888888
+	}
+	return e
+}
+
+// funcOn: LCSFunc / LISFunc / LNDSFunc at element type T; key equality / key order as in mode k.
+func funcOn[T any](f []string, enc func(int) T, dec func(T) int) string {
+	encAll := func(xs []int) []T {
+		out := make([]T, len(xs))
+		for i, x := range xs {
+			out[i] = enc(x)
+		}
+		return out
+	}
+	decAll := func(xs []T) []int {
+		out := make([]int, len(xs))
+		for i, x := range xs {
+			out[i] = dec(x)
+		}
+		return out
+	}
+	switch f[0] {
+	case "L":
+		if len(f) < 4 {
+			return "?"
+		}
+		a, b := tr.UnInts(f[2]), tr.UnInts(f[3])
+		as, bs := encAll(a), encAll(b)
+		res := slice.LCSFunc(as, bs, func(x, y T) bool {
+			if len(armed) > 0 {
+				nestedHook()
+			}
+			return key(dec(x)) == key(dec(y))
+		})
+		afterCall()
+		m := !slices.Equal(decAll(as), a) || !slices.Equal(decAll(bs), b)
+		nl := "s"
+		if res == nil {
+			nl = "z"
+		}
+		return nl + " " + tr.Ints(decAll(res)) + " m" + tr.B(m) + " a0"
+	case "I", "N":
+		v := tr.UnInts(f[2])
+		vs := encAll(v)
+		c := func(x, y T) int {
+			if len(armed) > 0 {
+				nestedHook()
+			}
+			return cmp.Compare(key(dec(x)), key(dec(y)))
+		}
+		var res []T
+		if f[0] == "I" {
+			res = slice.LISFunc(vs, c)
+		} else {
+			res = slice.LNDSFunc(vs, c)
+		}
+		afterCall()
+		m := !slices.Equal(decAll(vs), v)
+		return tr.Ints(decAll(res)) + " m" + tr.B(m) + " a0"
+	}
+	return "?"
+}
+
+func funcTyped(mode string) bool { return mode == "K" || mode == "Q" }
+
+func execFuncTyped(f []string) string {
+	if f[1] == "K" {
+		return funcOn(f, wideOf, wide.code)
+	}
+	return funcOn(f, func(e int) *wide { w := wideOf(e); return &w }, func(p *wide) int {
+		if p == nil {
+			return -888888
+		}
+		return p.code()
+	})
 }
 
 // ---------------------------------------------------------------- generators
@@ -818,7 +939,79 @@ func genTyped5(g *tr.G) {
 	}
 }
 
+// genThinLong: one input of exactly 2^15 - 1 .. 2^15 + 1 and 2^16 - 1 .. 2^16 + 1 elements against a
+// thin one (the table is linear in the long side): all equal, distinct with the LAST / the first and
+// the last element in common, nothing in common; both argument orders.  S lines with abbreviated
+// lists ("7*65536", "1~65536": the harness and the driver expand them).
+func genThinLong(g *tr.G) {
+	for _, n := range []int{1<<15 - 1, 1 << 15, 1<<15 + 1, 1<<16 - 1, 1 << 16, 1<<16 + 1} {
+		if !g.Thorough() && n < 1<<16-1 && n != 1<<15 {
+			continue
+		}
+		N := strconv.Itoa(n)
+		type pair struct{ long, thin string }
+		pairs := []pair{
+			{"700*" + N, "700,700,700"},
+			{"1~" + N, N},
+			{"1~" + N, "1," + N},
+			{"1~" + N, strconv.Itoa(n + 5)},
+			{"700*" + strconv.Itoa(n-1) + ",900", "900"},
+		}
+		for pi, p := range pairs {
+			a, b := p.long, p.thin
+			if (pi+n)%2 == 1 {
+				a, b = b, a
+			}
+			g.Emit("S e "+a+" "+b, true, "thin-long", "spec-only", "lcs-mode-e", "exact-size>=2^15")
+			if g.Thorough() {
+				g.Emit("S e "+b+" "+a, true, "thin-long", "spec-only", "lcs-mode-e", "exact-size>=2^15")
+			}
+		}
+	}
+}
+
+// genFuncTyped: LCSFunc, LISFunc, LNDSFunc on a 40-byte struct and on pointers to it (modes K, Q).
+func genFuncTyped(g *tr.G) {
+	for _, mode := range []string{"K", "Q"} {
+		var lists [][]int
+		allLists(3, g.Scale(3, 4), func(ks []int) { lists = append(lists, slices.Clone(ks)) })
+		for _, a := range lists {
+			for _, b := range lists {
+				g.Emit("L "+mode+" "+tr.Ints(withPayload(a, 0))+" "+tr.Ints(withPayload(b, 50)), hasDup(a) || hasDup(b), "func-typed-"+mode, "lcs-mode-"+mode)
+			}
+		}
+		allLists(4, g.Scale(4, 6), func(ks []int) {
+			vs := withPayload(ks, 0)
+			g.Emit("I "+mode+" "+tr.Ints(vs), hasDup(ks), "func-typed-"+mode, "lis-mode-"+mode)
+			g.Emit("N "+mode+" "+tr.Ints(vs), hasDup(ks), "func-typed-"+mode, "lis-mode-"+mode)
+		})
+		for i := 0; i < g.Scale(200, 5000); i++ {
+			k := g.R.Range(2, 5)
+			n := g.R.Intn(41)
+			if i%10 == 0 {
+				n = tr.Pick(g.R, []int{31, 32, 33, 63, 64, 65})
+			}
+			base := make([]int, n)
+			for j := range base {
+				base[j] = g.R.Intn(k)
+			}
+			a, b := mutate(g.R, base, k), mutate(g.R, base, k)
+			if len(a) > 49 {
+				a = a[:49]
+			}
+			g.Emit("L "+mode+" "+tr.Ints(withPayload(a, 0))+" "+tr.Ints(payloadMod(b)), true, "func-typed-"+mode, "lcs-mode-"+mode)
+			ks := randKeys(g.R, 60)
+			if i%10 == 0 {
+				ks = sweepKeys(tr.Pick(g.R, []int{31, 32, 33, 63, 64, 65, 100}), "apst"[i/10%4])
+			}
+			g.Emit("IN"[i%2:i%2+1]+" "+mode+" "+tr.Ints(payloadMod(ks)), true, "func-typed-"+mode, "lis-mode-"+mode)
+		}
+	}
+}
+
 func round5(g *tr.G) {
+	genFuncTyped(g)
+	genThinLong(g)
 	genTwoSided(g)
 	genOneDoubled(g)
 	genSharedSweep(g)
